@@ -20,7 +20,7 @@ func init() { register(c18{}) }
 func (c18) Meta() core.Meta {
 	return core.Meta{
 		ID: "C18", Level: "exploration",
-		Rule: "case i = f(seed,i): a history of 1..40 option-setter calls (explicit, toggling, repeated and multi-argument forms of every setter; attribute prefixes; single-character punctuation key prefixes; both escaping switches in either order; field separators; array sizes) interleaved with decode/encode/query calls on a fixed probe corpus. Online checker: after every setter call the hooked option snapshot (VerifOptionSnapshot) must equal the successor state of the documented option model (idempotence of explicit forms; toggle / disable / reset semantics of the argument-less forms; coupled escaping switches); a repeated explicit call must leave the snapshot unchanged. Non-interference probes around the relevant calls: attribute prefix / lower-casing leave the sequence codec and JSON unchanged, cast options leave un-cast decoding unchanged, encoder switches leave decoding unchanged. After the history every option is set back to its default through the public setters: the snapshot must equal the process-start snapshot and a behaviour battery (decode, encode, query through every API family, 60+ fingerprints) must equal the battery taken in the fresh process. Non-trivial: history with >=3 setter calls; distinct by hash(history).",
+		Rule:        "case i = f(seed,i): a history of 1..40 option-setter calls (explicit, toggling, repeated and multi-argument forms of every setter; attribute prefixes; single-character punctuation key prefixes; both escaping switches in either order; field separators; array sizes) interleaved with decode/encode/query calls on a fixed probe corpus. Online checker: after every setter call the hooked option snapshot (VerifOptionSnapshot) must equal the successor state of the documented option model (idempotence of explicit forms; toggle / disable / reset semantics of the argument-less forms; coupled escaping switches); a repeated explicit call must leave the snapshot unchanged. Non-interference probes around the relevant calls: attribute prefix / lower-casing leave the sequence codec and JSON unchanged, cast options leave un-cast decoding unchanged, encoder switches leave decoding unchanged. After the history every option is set back to its default through the public setters: the snapshot must equal the process-start snapshot and a behaviour battery (decode, encode, query through every API family, 60+ fingerprints) must equal the battery taken in the fresh process. Non-trivial: history with >=3 setter calls; distinct by hash(history).",
 		Assumptions: []string{"the option model is written from the setters' documentation (DESIGN 3.3 optModel)", "key prefixes are single punctuation characters (the quantifier); a letter that occurs in the key names cannot be undone by design"},
 		Anchors:     []string{"SetGlobalKeyMapPrefix", "PrependAttrWithHyphen", "SetAttrPrefix", "IncludeTagSeqNum", "CoerceKeysToLower", "DisableTrimWhiteSpace", "CoerceKeysToSnakeCase", "CastValuesToInt", "CastValuesToFloat", "CastValuesToBool", "CastNanInf", "SetCheckTagToSkipFunc", "HandleXMPPStreamTag", "DecodeSimpleValuesAsMap", "XmlGoEmptyElemSyntax", "XmlDefaultEmptyElemSyntax", "XmlCheckIsValid", "XMLEscapeChars", "XMLEscapeCharsDecoder", "SetFieldSeparator", "SetArraySize", "LeafUseDotNotation"},
 		Floors:      map[string]int64{"setter-calls-checked": 20000, "toggle-forms": 3000, "repeat-idempotence-checks": 2000, "noninterference-probes": 3000, "restores-checked": 1500, "interleaved-api-calls": 5000},
@@ -35,7 +35,7 @@ func (c18) Cases(tier string, race bool) int {
 	if tier == "thorough" {
 		return 120000
 	}
-	return 2400
+	return 8000
 }
 
 type optState map[string]interface{}
@@ -49,12 +49,12 @@ func (s optState) clone() optState {
 }
 
 type setterCall struct {
-	name  string              // rendered call, e.g. CoerceKeysToLower(true)
-	class string              // "attr-case" | "cast" | "encoder" | ""
-	apply func()              // the real call
-	model func(s optState)    // documented transition
-	expl  bool                // explicit-value form (idempotent)
-	tog   bool                // argument-less form
+	name  string           // rendered call, e.g. CoerceKeysToLower(true)
+	class string           // "attr-case" | "cast" | "encoder" | ""
+	apply func()           // the real call
+	model func(s optState) // documented transition
+	expl  bool             // explicit-value form (idempotent)
+	tog   bool             // argument-less form
 }
 
 func boolSetter(r *rand.Rand, name, key, class string, f func(...bool)) setterCall {
